@@ -478,6 +478,8 @@ pub fn run_case(line: &str) -> (String, Vec<String>) {
     if let Some(x) = &c.expect {
         if !fault && &base_text != x {
             fails.push(format!("C07:parsed {} but the rendered value is {}", base_text, x));
+            // the writers' output is one of the layouts: the same mismatch breaks write∘parse = id
+            fails.push(format!("C03:parsed {} but the written value is {}", base_text, x));
         }
     }
     // ---- C06: independent reading of accepted inputs
